@@ -2,7 +2,7 @@
 
 The thresholds refer to concrete arm labels and concrete (unit-scaled) rewards and are installed by the
 binding before a replay; they mirror the specification's Binz operator:
-    thr : reward >= Thr[arm]      flip : 1 - reward on {0, 1} (not idempotent)      ge2 : reward >= 2 units
+    thr : reward >= Thr[arm]      ident : identity on {0, 1}      flip : 1 - reward on {0, 1} (not idempotent)      ge2 : reward >= 2 units
 """
 THR = {}
 UNIT = 1
@@ -27,5 +27,9 @@ def ge2(arm, reward):
     return 1 if reward >= 2 * UNIT else 0
 
 
-BY_NAME = {"thr": thr, "flip": flip, "ge2": ge2, "none": None}
-NAME_OF = {thr: "thr", flip: "flip", ge2: "ge2", None: "none"}
+def ident(arm, reward):
+    return 1 if reward == 1 else 0
+
+
+BY_NAME = {"thr": thr, "flip": flip, "ge2": ge2, "ident": ident, "none": None}
+NAME_OF = {thr: "thr", flip: "flip", ge2: "ge2", ident: "ident", None: "none"}
